@@ -952,10 +952,6 @@ package go_clipper2
 //@   props C03
 //@   panicfree
 
-//@ func newOutPt
-//@   props C03
-//@   panicfree
-
 //@ func newReuseableDataContainer64
 //@   props C03
 //@   panicfree
@@ -1350,3 +1346,82 @@ package go_clipper2
 //@   props C02 C17 C04
 //@   nosafety
 //@   loop 0 step [split-rings-own-their-entry-points] (!c.usingPolyTree && or2.pts != nil && or2.owner == or1 && or1 != or2 && old(or1.pts != nil && or1.pts.outrec == or1 && j.op1.next != j.op1 && j.op1 != nil) && old(len(c.outrecList)) < len(c.outrecList)) ==> (or1.pts.outrec == or1 && or2.pts.outrec == or2)
+
+// ---------------------------------------------------------------------------------
+// Output-ring and active-edge-list surgery (C02, C03, C09): loop-free heap functions
+// ---------------------------------------------------------------------------------
+
+//@ spec linked(a, b *OutPt) bool = a != nil && b != nil && a.next == b && b.prev == a
+//@ spec hot(ae *Active) bool = ae.outrec != nil
+//@ spec openEdge(ae *Active) bool = ae.localMin.IsOpen
+
+//@ func newOutPt
+//@   props C02 C03
+//@   panicfree
+
+//@ func disposeOutPt
+//@   props C02 C03
+//@   requires op != nil && op.next != nil && op.prev != nil
+//@   ensures [unlinked] linked(old(op.prev), old(op.next))
+//@   ensures [successor] result == ite(old(op.next) == op, nil, old(op.next))
+
+//@ func duplicateOp
+//@   props C02 C03
+//@   requires op != nil && op.next != nil && op.prev != nil
+//@   ensures [copy] result != nil && result != op && result.pt == op.pt && result.outrec == op.outrec
+//@   ensures [after] insertAfter ==> (linked(op, result) && linked(result, ite(old(op.next) == op, op, old(op.next))))
+//@   ensures [before] !insertAfter ==> (linked(result, op) && linked(ite(old(op.prev) == op, op, old(op.prev)), result))
+
+//@ func addOutPt
+//@   props C02 C03
+//@   assumes ae != nil && ae.outrec != nil && ae.outrec.pts != nil && ae.outrec.pts.next != nil
+//@   ensures [front-duplicate-skipped] (old(ae == ae.outrec.frontEdge) && pt == old(ae.outrec.pts.pt)) ==> (result == old(ae.outrec.pts) && ae.outrec.pts == old(ae.outrec.pts) && old(ae.outrec.pts).next == old(ae.outrec.pts.next))
+//@   ensures [back-duplicate-skipped] (!old(ae == ae.outrec.frontEdge) && pt == old(ae.outrec.pts.next.pt)) ==> (result == old(ae.outrec.pts.next) && ae.outrec.pts == old(ae.outrec.pts))
+//@   ensures [inserted-between-front-and-back] !((old(ae == ae.outrec.frontEdge) && pt == old(ae.outrec.pts.pt)) || (!old(ae == ae.outrec.frontEdge) && pt == old(ae.outrec.pts.next.pt))) ==> (result != nil && result.pt == pt && result.outrec == ae.outrec && linked(old(ae.outrec.pts), result) && linked(result, old(ae.outrec.pts.next)) && ae.outrec.pts == ite(old(ae == ae.outrec.frontEdge), result, old(ae.outrec.pts)))
+
+//@ func swapOutrecs
+//@   props C02 C03
+//@   requires ae1 != nil && ae2 != nil && ae1 != ae2
+//@   ensures [same-record-flips-sides] (old(ae1.outrec) != nil && old(ae1.outrec) == old(ae2.outrec)) ==> (ae1.outrec == old(ae1.outrec) && ae2.outrec == old(ae2.outrec) && ae1.outrec.frontEdge == old(ae1.outrec.backEdge) && ae1.outrec.backEdge == old(ae1.outrec.frontEdge))
+//@   ensures [records-exchanged] !(old(ae1.outrec) != nil && old(ae1.outrec) == old(ae2.outrec)) ==> (ae1.outrec == old(ae2.outrec) && ae2.outrec == old(ae1.outrec))
+//@   ensures [sides-follow-1] (old(ae1.outrec) != nil && old(ae1.outrec) != old(ae2.outrec)) ==> ((old(ae1.outrec.frontEdge) == ae1 ==> old(ae1.outrec).frontEdge == ae2) && (old(ae1.outrec.frontEdge) != ae1 ==> old(ae1.outrec).backEdge == ae2))
+//@   ensures [sides-follow-2] (old(ae2.outrec) != nil && old(ae1.outrec) != old(ae2.outrec)) ==> ((old(ae2.outrec.frontEdge) == ae2 ==> old(ae2.outrec).frontEdge == ae1) && (old(ae2.outrec.frontEdge) != ae2 ==> old(ae2.outrec).backEdge == ae1))
+
+//@ func clipperBase.swapPositionsInAEL
+//@   props C01 C03
+//@   requires ae1 != nil && ae2 != nil && ae1 != ae2 && ae1.nextInAEL == ae2 && ae2.prevInAEL == ae1
+//@   requires ae2.nextInAEL != ae1 && ae2.nextInAEL != ae2 && ae1.prevInAEL != ae1 && ae1.prevInAEL != ae2
+//@   ensures [swapped] ae2.nextInAEL == ae1 && ae1.prevInAEL == ae2 && ae2.prevInAEL == old(ae1.prevInAEL) && ae1.nextInAEL == old(ae2.nextInAEL)
+//@   ensures [neighbours-relinked] (old(ae1.prevInAEL) != nil ==> old(ae1.prevInAEL).nextInAEL == ae2) && (old(ae2.nextInAEL) != nil ==> old(ae2.nextInAEL).prevInAEL == ae1)
+//@   ensures [head] old(ae1.prevInAEL) == nil ==> c.actives == ae2
+//@   ensures [head-kept] old(ae1.prevInAEL) != nil ==> c.actives == old(c.actives)
+
+//@ func clipperBase.deleteFromAEL
+//@   props C01 C03 C12
+//@   requires ae != nil
+//@   assumes ae.prevInAEL != ae && ae.nextInAEL != ae
+//@   ensures [not-in-list-noop] (old(ae.prevInAEL) == nil && old(ae.nextInAEL) == nil && old(c.actives) != ae) ==> c.actives == old(c.actives)
+//@   ensures [unlinked] !(old(ae.prevInAEL) == nil && old(ae.nextInAEL) == nil && old(c.actives) != ae) ==> ((old(ae.prevInAEL) != nil ==> old(ae.prevInAEL).nextInAEL == old(ae.nextInAEL)) && (old(ae.nextInAEL) != nil ==> old(ae.nextInAEL).prevInAEL == old(ae.prevInAEL)) && (old(ae.prevInAEL) == nil ==> c.actives == old(ae.nextInAEL)))
+
+//@ func clipperBase.checkJoinRight
+//@   props C03 C09 C02
+//@   nosafety
+//@   assumes dom(pt, 29) && dom(e.top, 29) && dom(e.bot, 29) && (e.nextInAEL != nil ==> (dom(e.nextInAEL.top, 29) && dom(e.nextInAEL.bot, 29)))
+//@   requires e != nil && e.localMin != nil && (e.nextInAEL != nil ==> e.nextInAEL.localMin != nil)
+//@   ensures [only-hot-closed-sloped-neighbours] (e.nextInAEL == nil || old(e.outrec) == nil || old(e.nextInAEL.outrec) == nil || e.localMin.IsOpen || e.nextInAEL.localMin.IsOpen || old(e.bot.Y == e.top.Y) || old(e.nextInAEL.bot.Y == e.nextInAEL.top.Y)) ==> (e.joinWith == old(e.joinWith) && e.outrec == old(e.outrec) && (e.nextInAEL != nil ==> (e.nextInAEL.joinWith == old(e.nextInAEL.joinWith) && e.nextInAEL.outrec == old(e.nextInAEL.outrec))))
+
+//@ func clipperBase.checkJoinLeft
+//@   props C03 C09 C02
+//@   nosafety
+//@   assumes dom(pt, 29) && dom(e.top, 29) && dom(e.bot, 29) && (e.prevInAEL != nil ==> (dom(e.prevInAEL.top, 29) && dom(e.prevInAEL.bot, 29)))
+//@   requires e != nil && e.localMin != nil && (e.prevInAEL != nil ==> e.prevInAEL.localMin != nil)
+//@   ensures [only-hot-closed-sloped-neighbours] (e.prevInAEL == nil || old(e.outrec) == nil || old(e.prevInAEL.outrec) == nil || e.localMin.IsOpen || e.prevInAEL.localMin.IsOpen || old(e.bot.Y == e.top.Y) || old(e.prevInAEL.bot.Y == e.prevInAEL.top.Y)) ==> (e.joinWith == old(e.joinWith) && e.outrec == old(e.outrec) && (e.prevInAEL != nil ==> (e.prevInAEL.joinWith == old(e.prevInAEL.joinWith) && e.prevInAEL.outrec == old(e.prevInAEL.outrec))))
+
+//@ func clipperBase.addLocalMinPoly
+//@   props C02 C04 C09
+//@   nosafety
+//@   assumes ae1 != nil && ae2 != nil && ae1.localMin != nil
+//@   ensures [new-record] result != nil && ae1.outrec != nil && ae1.outrec == ae2.outrec && ae1.outrec.pts == result && result.pt == pt && result.next == result && result.prev == result && result.outrec == ae1.outrec
+//@   ensures [open-flag] ae1.outrec.isOpen == ae1.localMin.IsOpen
+//@   ensures [sides] (ae1.outrec.frontEdge == ae1 && ae1.outrec.backEdge == ae2) || (ae1.outrec.frontEdge == ae2 && ae1.outrec.backEdge == ae1)
+//@   ensures [registered] len(c.outrecList) == old(len(c.outrecList)) + 1 && c.outrecList[len(c.outrecList)-1] == ae1.outrec && ae1.outrec.idx == old(len(c.outrecList))
